@@ -34,3 +34,21 @@ pub(crate) mod verif_util {
         b == b' ' || b == b'\t' || b == b'\n' || b == b'\r'
     }
 }
+#[cfg(verif_nx)]
+impl FormattingData {
+    pub(crate) fn verif_nx_new(ignored: bool, nl: u16, ind: u16, cont: u16, sp: u16) -> Self {
+        FormattingData {
+            ignored,
+            newlines_before: nl,
+            indentations_before: ind,
+            continuations_before: cont,
+            spaces_before: sp,
+        }
+    }
+}
+#[cfg(verif_nx)]
+impl<'a> FormattedTokens<'a> {
+    pub(crate) fn verif_nx_new(tokens: &'a mut [Token<'a>], fmt: Vec<FormattingData>) -> Self {
+        Self { tokens, fmt }
+    }
+}
